@@ -387,3 +387,22 @@ Definition qcall_sections (c : qcall * bool * bool) : list qstep :=
   | QCFinish b p => [QBracket b (Some (WSet p)) true]
   end.
 Definition qthread_sections (t : list (qcall * bool * bool)) : list qstep := flat_map qcall_sections t.
+
+(* ------------------------------------------------------------------ part 5: one frame reads the counter SEVERAL times *)
+(** Inside one bracket the code does not read `pos` once: `update_estimate_and_draw` loads it
+    (state.rs:149), `format_state` loads it once for {pos} / {human_pos} / the byte keys
+    (style.rs:246), `state.fraction()` loads it again for {bar} / {wide_bar} / {percent} /
+    {percent_precise} (state.rs:286-287), `eta()` / `per_sec()` again - all plain loads, while the
+    stores of inc / dec / set_position of OTHER threads are not under the bar mutex.  At read
+    granularity a frame is a sequence of READS with foreign stores allowed between them.  [q_read b]
+    = one such load, logged like a paint of part 4 (bar, index into the history, value); a frame with
+    two position-dependent key groups = [q_read b; foreign stores; q_read b].
+    Sys.v's template alphabet (PLit / PMsg / PPrefix / PPos / PLen / PSpinner / PNewLine) has ONE
+    position-dependent group (PPos; PLen falls back to it), so its frames read once: the theorems
+    over Sys.v are about single-read frames.  Templates with {bar} / {percent} / {eta} next to {pos}
+    are outside that alphabet; for them "every painted frame shows a state the bar really had"
+    FAILS with a concurrent writer: open finding D33 `torn-position-read-within-one-frame`
+    (C02_frame_single_state_refuted; exhibit in c02.rs). *)
+Definition q_read (b : N) : qstep := QBracket b None true.
+(** a frame of bar b with two reads and the stores [ws] of other threads between them *)
+Definition frame2 (b : N) (ws : list wr) : list qstep := q_read b :: map (QStore b) ws ++ [q_read b].
